@@ -13,6 +13,7 @@ from __future__ import annotations
 import ast
 
 from ..gates import gate_rule
+from ..sites import apply_fn, worker_fn
 from ..model import AnalysisError, FuncInfo, bind_args, call_name, last_attr, names_in, unparse, walk_no_nested
 from ..prov import Prov
 
@@ -106,7 +107,7 @@ def rule_pattern_base_sibling(ctx, rep):
     mf = ctx.prog.func("codemodder.code_directory.match_files")
     rel = any(isinstance(n, ast.Call) and last_attr(n.func) == "relative_to" for n in walk_no_nested(mf.node))
     rep.check("R-PATTERN-BASE-SIBLING", mf.qname, mf.loc(), rel, "match_files-relativises", "match_files no longer relativises paths to the target before matching")
-    pf = ctx.prog.func(PROCESS)
+    pf = worker_fn(ctx)
     flp = ctx.prog.func("codemodder.code_directory.file_line_patterns")
     handles_relative_inside = any(isinstance(n, ast.Call) and last_attr(n.func) == "relative_to" for n in walk_no_nested(flp.node))
     calls = [n for n in walk_no_nested(pf.node) if isinstance(n, ast.Call) and last_attr(n.func) == "file_line_patterns"]
